@@ -44,7 +44,7 @@ func (c09) Components() map[string][]string {
 	}
 }
 func (c09) ProbeNames() []string {
-	return []string{"torn-array-write", "backup-used", "old-survived", "new-visible", "exhaustive-window", "blank-old", "via-disk-partition"}
+	return []string{"torn-array-write", "backup-used", "old-survived", "new-visible", "auto-disk-guid", "exhaustive-window", "blank-old", "via-disk-partition"}
 }
 func (c09) Budget(tier string) (int, int, int) {
 	if tier == "thorough" {
@@ -131,10 +131,16 @@ func (c09) Gen(r *core.Rng, tier string, idx int) *core.Trace {
 				nw.GUID = genGUID(r)
 			}
 		}
+		if r.Chance(20) {
+			nw.GUID = "" // left to the library
+		}
 		t.CfgS["newguid"] = nw.GUID
 		t.Ops = append(t.Ops, nw.ops("new")...)
 	} else {
 		nw := genGPT(r, sectors, int(lss), maxParts, false)
+		if r.Chance(20) {
+			nw.GUID = "" // left to the library
+		}
 		t.CfgS["newguid"] = nw.GUID
 		t.Ops = append(t.Ops, nw.ops("new")...)
 	}
@@ -213,6 +219,15 @@ func (p c09) Exec(t *core.Trace) *core.Result {
 		}
 	}
 	res.DevOps = int64(len(d.Events))
+	if nw.GUID == "" {
+		// the new table left the disk GUID to the library: "the new table" then carries the GUID that the
+		// completed Write reads back with (primary copy, independent parser) - every crash state must show the old
+		// table or exactly that one
+		if v := indep.ReadGPT(d, lss); v.Primary != nil {
+			nw.GUID = v.Primary.DiskGUID
+			res.Probe("auto-disk-guid")
+		}
+	}
 	oldCanon, newCanon := old.canon(), nw.canon()
 
 	// explicit crash ops (replay of a narrowed trace)?
